@@ -23,14 +23,15 @@ func init() {
 		Exhaustive: true,
 		Scope: func(tier string) string {
 			if tier == "thorough" {
-				return "all strings of length <= 5 over 18 symbols x 4 configurations + 300k documents x lattice + deep nesting up to 20000"
+				return "all strings of length <= 4 over 22 symbols and <= 5 over 18 symbols x 4 configurations + 300k documents x lattice + deep nesting up to 20000"
 			}
-			return "all strings of length <= 4 over 22 symbols x 4 configurations + 20k documents x lattice + deep nesting up to 3000"
+			return "all strings of length <= 3 over 22 symbols and <= 4 over 11 symbols x 4 configurations + 12k documents x lattice + deep nesting up to 3000"
 		},
 	})
 }
 
 var totalAlphabet = syms("*", "_", "`", "[", "]", "(", ")", "<", ">", "!", "#", "-", "|", ":", "~", "\\", "&", "\n", " ", "a", "\t", "\x80")
+var totalAlphabetCore = syms("*", "_", "`", "[", "]", "(", "<", "-", "\n", " ", ">")
 var totalAlphabetSmall = syms("*", "_", "`", "[", "]", "(", "<", ">", "#", "-", "|", ":", "\\", "&", "\n", " ", "a", "\xe3\x81\x82")
 
 var extremeCfgs = []Cfg{
@@ -62,16 +63,24 @@ func deepDoc(rng *RNG, depth int) []byte {
 }
 
 func genTotal(tier string, rng *RNG, emit func(Case)) {
-	n, ndocs, maxDepth := 4, 20000, 3000
-	alpha := totalAlphabet
+	// quick: every string of length <= 3 over the 22-symbol alphabet and of length <= 4 over its 11 most
+	// structure-bearing symbols; thorough: length <= 4 over all 22 and length <= 5 over 18
+	ndocs, maxDepth := 12000, 3000
+	type scope struct {
+		alpha [][]byte
+		n     int
+	}
+	scopes := []scope{{totalAlphabet, 3}, {totalAlphabetCore, 4}}
 	if tier == "thorough" {
-		n, ndocs, maxDepth = 5, 300000, 20000
-		alpha = totalAlphabetSmall
+		ndocs, maxDepth = 300000, 20000
+		scopes = []scope{{totalAlphabet, 4}, {totalAlphabetSmall, 5}}
 	}
 	for ci := range extremeCfgs {
-		enumStrings(alpha, n, func(b []byte) {
-			emit(Case{Op: "x", Args: []string{fmt.Sprint(ci), hx(b)}})
-		})
+		for _, sc := range scopes {
+			enumStrings(sc.alpha, sc.n, func(b []byte) {
+				emit(Case{Op: "x", Args: []string{fmt.Sprint(ci), hx(b)}})
+			})
+		}
 	}
 	lattice := FullLattice()
 	DocStream(rng, ndocs, func(kind string, d []byte) {
@@ -99,16 +108,26 @@ func sizeClass(n int) int {
 	return c
 }
 
+var totalBounds = map[int]time.Duration{}
+var totalBoundAt = map[int]int{}
+
 func watchdogBound(n int) time.Duration {
 	totalMu.Lock()
 	defer totalMu.Unlock()
-	ts := totalTimes[sizeClass(n)]
+	k := sizeClass(n)
+	ts := totalTimes[k]
 	bound := 2 * time.Second
 	if len(ts) >= 20 {
-		s := append([]time.Duration{}, ts...)
-		sort.Slice(s, func(i, j int) bool { return s[i] < s[j] })
-		if b := 200 * s[len(s)/2]; b > bound {
+		// the median is recomputed only every 256 samples
+		if b, ok := totalBounds[k]; ok && len(ts)-totalBoundAt[k] < 256 {
 			bound = b
+		} else {
+			s := append([]time.Duration{}, ts...)
+			sort.Slice(s, func(i, j int) bool { return s[i] < s[j] })
+			if b := 200 * s[len(s)/2]; b > bound {
+				bound = b
+			}
+			totalBounds[k], totalBoundAt[k] = bound, len(ts)
 		}
 	}
 	if n > 10000 {
